@@ -192,6 +192,18 @@ static void List_Assign(var self, var obj) {
 }
 
 static void List_Concat(var self, var obj) {
+  
+  if (obj is self) {
+    struct List* l = self;
+    size_t n = l->nitems;
+    var item = l->head;
+    for (size_t i = 0; i < n; i++) {
+      List_Push(self, item);
+      item = *List_Next(l, item);
+    }
+    return;
+  }
+  
   foreach (item in obj) {
     List_Push(self, item);
   }
